@@ -223,8 +223,13 @@ where
             return Ok(());
         }
         if let Some(head) = self.head {
-            if slice.len() > Label::MAX_LEN - (self.len() - head) {
+            // The label so far, not counting its length octet.
+            let label_len = self.len() - head - 1;
+            if slice.len() > Label::MAX_LEN - label_len {
                 return Err(PushError::LongLabel);
+            }
+            if self.len() + slice.len() > 254 {
+                return Err(PushError::LongName);
             }
         } else {
             if slice.len() > Label::MAX_LEN {
